@@ -287,10 +287,17 @@ class VolumeMesh(Mesh):
             else:
                 self._adjC2C = self.mesh.cell_faces.create_attribute("adjacent_cell", int, 1, default_value= config.NOT_AN_ID)
                 for iC, cell in enumerate(self.mesh.cells):
-                    v0,v1,v2,v3 = cell
-                    # face fi does not contain vertex vi
-                    f0,f1,f2,f3 = self.face_id(v1,v3,v2), self.face_id(v0,v2,v3), self.face_id(v3,v1,v0), self.face_id(v0,v1,v2)
-                    for iF, F in enumerate((f0,f1,f2,f3)):
+                    if len(cell)==8:
+                        # hexahedron : same facet numbering as RawMeshData._generate_cell_faces
+                        h1,h2,h3,h4,h5,h6,h7,h8 = cell
+                        cell_facets = (self.face_id(h1,h2,h3,h4), self.face_id(h5,h6,h7,h8), self.face_id(h1,h4,h8,h5),
+                                       self.face_id(h1,h2,h6,h5), self.face_id(h2,h3,h7,h6), self.face_id(h3,h4,h8,h7))
+                    else:
+                        v0,v1,v2,v3 = cell
+                        # face fi does not contain vertex vi
+                        f0,f1,f2,f3 = self.face_id(v1,v3,v2), self.face_id(v0,v2,v3), self.face_id(v3,v1,v0), self.face_id(v0,v1,v2)
+                        cell_facets = (f0,f1,f2,f3)
+                    for iF, F in enumerate(cell_facets):
                         for iC2 in self.face_to_cells(F):
                             if iC2 != iC: self._adjC2C[(iC,iF)] = iC2
                             
